@@ -16,7 +16,7 @@
                       run_blocks = run_blocks_gen fixed_D6 (fixed_D6 = true since the fix: commit for D6) *)
 From Coq Require Import ZArith List String Bool.
 Import ListNotations.
-From TD Require Import Model.C13_Swap Model.C13_Scope Model.C13_Params Proofs.C13_SwapP Proofs.C13_ExactP Proofs.C13_VariantsP.
+From TD Require Import Model.C13_Swap Model.C13_Scope Model.C13_Params Proofs.C13_SwapP Proofs.C13_ExactP Proofs.C13_VariantsP Proofs.C13_InplaceP Proofs.C13_ManualP.
 Open Scope string_scope.
 
 (* ---- from_module_exact: the captured tensordict has exactly the qualified names of torch's named_parameters /
@@ -135,8 +135,8 @@ Proof. exact (fun t cfg m st memo st1 memo1 sw Hi => I_all t cfg Hi m st memo st
 Print Assumptions C13_inplace_keeps_objects.
 
 (* ---- swap_then_restore for programs mixing plain, swap_dest= and inplace=True blocks (each on any module of the DAG,
-   any nesting): after a normal run every slot holds the object it held before.  (What is not proved for in-place
-   blocks: the tensor CONTENTS after the exit, and exits by an exception -- model + run only.) *)
+   any nesting): after a normal run every slot holds the object it held before.  (Exits by an exception and the tensor
+   contents of in-place blocks: C13_exception_exit_same_state .. C13_inplace_contents_partial below.) *)
 Theorem C13_swap_then_restore_mixed : forall fixed x bs lvl st st' evs oc,
   run_blocks_gen fixed x bs lvl st = (st', evs, oc) ->
   x_kind x = XNone -> Forall (fun e => ev_out e = OOk) evs ->
@@ -217,3 +217,147 @@ Example C13_ex_from_module :
 Proof. exact ex_from_module. Qed.
 Example C13_ex_params : registered_exactly ex_tdp /\ top_level (OSet ["n"; "z"] (oT 2) true true) = true.
 Proof. split; [exact (proj1 ex_D135)|reflexivity]. Qed.
+
+(* ==== in-place blocks: exits by an exception, and the tensor contents (Proofs/C13_InplaceP.v).  Vocabulary:
+     mobj st o        o is held by some module of st under some name (_parameters / _buffers / __dict__)
+     tidy st          no two distinct tensor objects of the module tree share an identity or a STORAGE (D137 is the
+                      complement), every one has a content, the allocator's next storage lies above everything in use
+                      (tidyb: the executable check, evaluated on every generated case)
+     vals_back st s   s holds, for every tensor of the module tree and every other storage that existed in st, the
+                      content st held
+     inplT cfg        inplace=True, no use_state_dict, return_swap=True (what the with-statement uses)
+     K st0 s          the store during an in-place pass started in st0: every overwritten tensor object has ONE clone
+                      in memo["inplace"] (t_saved) on a fresh storage holding the tensor's ORIGINAL content, untouched
+                      tensors and all other storages below st0's allocator mark hold what they held *)
+
+(* ---- an exit by an exception leaves exactly the state of a normal exit: any program of with-blocks (plain, swap_dest,
+   inplace=True, use_state_dict; any nesting, any tree), any injection point, Exception or BaseException *)
+Theorem C13_exception_exit_same_state : forall x x0 bs lvl st, no_manual bs ->
+  fst (fst (run_blocks_gen true x bs lvl st)) = fst (fst (run_blocks_gen true x0 bs lvl st)).
+Proof. exact run_state_exc_irrelevant. Qed.
+Print Assumptions C13_exception_exit_same_state.
+
+(* ---- restore_on_exception for programs mixing plain / swap_dest / in-place blocks: whenever the run without an
+   exception completes, the run with an exception injected anywhere ends in the same state, and every slot holds the
+   object it held *)
+Theorem C13_restore_mixed_on_exception : forall x bs lvl st st' evs oc,
+  run_blocks_gen true x bs lvl st = (st', evs, oc) ->
+  Forall (block_ok2 (t_heap st)) bs -> wf_heap (t_heap st) ->
+  Forall (fun e => ev_out e = OOk) (snd (fst (run_blocks_gen true x_none bs lvl st))) ->
+  st' = fst (fst (run_blocks_gen true x_none bs lvl st)) /\ all_sloteq st' st.
+Proof. exact restore_mixed_on_exception. Qed.
+Print Assumptions C13_restore_mixed_on_exception.
+
+(* ---- one in-place leaf is `out.data.copy_(tensor.data)` on the object in the slot, with the clone taken once per
+   object (D134 repaired); afterwards the object holds the supplied value *)
+Theorem C13_inplace_leaf_effect : forall n k x st,
+  let '(n', out, st') := set_tensor_dict n k x true st in
+  match slot_obj (slot3 n k) with
+  | Some o => out = Some (fst (inpl_eff st o x)) /\ st' = snd (inpl_eff st o x)
+  | None => out = None
+  end.
+Proof. exact std_inplace_eff. Qed.
+Print Assumptions C13_inplace_leaf_effect.
+Theorem C13_inplace_leaf_inside : forall st0 s o x c s' v,
+  tidy st0 -> K st0 s -> mobj st0 o -> inpl_eff s o x = (c, s') ->
+  val_of s x = Some v -> (ostor x < t_next s)%Z -> val_of s' o = Some v.
+Proof. exact inpl_eff_inside. Qed.
+Print Assumptions C13_inplace_leaf_inside.
+
+(* ---- the way there, any module DAG (shared sub-modules, tied parameters under any number of names), any tensordict:
+   memo["inplace"] ends with one clone per overwritten tensor object holding its original content *)
+Theorem C13_inplace_saves_originals : forall cfg t m st st1 memo1 sw,
+  inplT cfg -> tidy st -> wf_heap (t_heap st) ->
+  to_module cfg t m st = TmOk st1 memo1 sw -> K (clear_saved st) st1 /\ all_sloteq st1 st.
+Proof. exact inplace_saves_originals. Qed.
+Print Assumptions C13_inplace_saves_originals.
+
+(* ---- there and back, any module DAG: re-applying the returned swap in place SUCCEEDS, every slot holds its object and
+   every tensor its original content; nothing else that existed is written *)
+Theorem C13_inplace_there_and_back : forall cfg t m st st1 memo1 sw,
+  inplT cfg -> tidy st -> wf_heap (t_heap st) ->
+  to_module cfg t m st = TmOk st1 memo1 sw ->
+  exists st2 memo2 sw2, to_module cfg sw m st1 = TmOk st2 memo2 sw2 /\ all_sloteq st2 st /\ vals_back st st2.
+Proof. exact inplace_there_and_back. Qed.
+Print Assumptions C13_inplace_there_and_back.
+
+(* ---- `with params.to_module(module, inplace=True):` left normally or by an exception of any class raised in the body:
+   objects and contents are back.  The statement for every module (storage-level aliasing between distinct tensor
+   objects included) is refuted: D137 *)
+Definition C13_inplace_contents_full_statement : Prop := inplace_contents_full_statement.
+Theorem C13_inplace_contents_refuted : ~ C13_inplace_contents_full_statement.
+Proof. exact inplace_contents_refuted. Qed.
+Print Assumptions C13_inplace_contents_refuted.
+Theorem C13_inplace_contents_partial : forall x b lvl st st' evs oc,
+  run_blocks_gen true x [b] lvl st = (st', evs, oc) ->
+  inplace_ok b -> b_swap_dest b = false -> tidy st -> wf_heap (t_heap st) -> enters_ok evs ->
+  all_sloteq st' st /\ vals_back st st'.
+Proof. exact inplace_block_restores. Qed.
+Print Assumptions C13_inplace_contents_partial.
+
+(* ---- programs of in-place blocks, any nesting depth, each on any module of the DAG, an exception of any class
+   injected anywhere (or none): when the outermost block has been left every slot holds its object and every tensor its
+   original content ([back] also carries the allocator facts the next block starts from) *)
+Theorem C13_restore_inplace_programs : forall x bs lvl st st' evs oc,
+  run_blocks_gen true x bs lvl st = (st', evs, oc) ->
+  Forall inplace_ok' bs -> tidy st -> wf_heap (t_heap st) -> enters_ok evs ->
+  back st st'.
+Proof. exact restore_inplace_programs. Qed.
+Print Assumptions C13_restore_inplace_programs.
+Example C13_ex_inplace_nested :
+  Forall inplace_ok' [ex_b4; ex_b4i] /\
+  (let '(st', evs, oc) := run_blocks_gen true (mkExc XExc 1 true) [ex_b4; ex_b4i] 0 ex_st4 in
+   enters_ok evs /\ List.length evs = 4%nat /\ oc = ORaise EInject /\ z_get (t_vals st') 1%Z = Some 10%Z
+   /\ match evs with _ :: e :: _ => z_get (t_vals (ev_state e)) 1%Z = Some 4%Z | _ => False end).
+Proof. exact ex_inplace_nested. Qed.
+
+(* non-vacuity: the tied tree of the D134 example is inside the domain (the executable check agrees); an Exception and
+   a BaseException raised in the in-place block: 5 inside, 10 afterwards; the D137 tree is outside and ends with 1 *)
+Example C13_ex_inplace_domain :
+  inplace_ok ex_b4 /\ b_swap_dest ex_b4 = false /\ tidy ex_st4 /\ wf_heap (t_heap ex_st4)
+  /\ inplT (cfg_of ex_b4 true) /\ inplace_block_domainb ex_st4 [ex_b4] = true.
+Proof. exact ex_inplace_domain. Qed.
+Example C13_ex_inplace_exception_run :
+  (let '(st', evs, oc) := run_blocks_gen true (mkExc XExc 0 true) [ex_b4] 0 ex_st4 in
+   enters_ok evs /\ oc = ORaise EInject /\ z_get (t_vals st') 1%Z = Some 10%Z
+   /\ match evs with e :: _ => z_get (t_vals (ev_state e)) 1%Z = Some 5%Z | [] => False end)
+  /\ (let '(st', evs, oc) := run_blocks_gen true (mkExc XBase 0 true) [ex_b4] 0 ex_st4 in
+      enters_ok evs /\ z_get (t_vals st') 1%Z = Some 10%Z).
+Proof. exact ex_inplace_exception_run. Qed.
+Example C13_ex_D137_outside :
+  tidyb (mkSt ex_heap_alias ex_vals FRESH_BASE []) = false /\ inplace_ok ex_b_alias /\ wf_heap ex_heap_alias
+  /\ ~ tidy (mkSt ex_heap_alias ex_vals FRESH_BASE [])
+  /\ (let '(st', evs, oc) := run_blocks_gen true x_none [ex_b_alias] 0 (mkSt ex_heap_alias ex_vals FRESH_BASE []) in
+      Forall (fun e => ev_out e = OOk) evs /\ z_get (t_vals st') 1%Z = Some 1%Z /\ z_get ex_vals 1%Z = Some 10%Z).
+Proof. exact ex_D137. Qed.
+
+(* ==== the hand-written swap-back `swap = params.to_module(m, return_swap=True); ...; swap.to_module(m)`
+   (Proofs/C13_ManualP.v).  With return_swap=False nothing is memoised: the swap of a shared sub-module is re-applied
+   once per NAME of the sub-module.  The invariant that makes the extra applications harmless:
+     holds n k o        re-installing o under k in node n gives the slot it was and raises nothing
+     installed h sw m   every leaf of sw holds in its slot, recursively through _modules (no memo)
+   Proved: a value just installed holds (the first application establishes the invariant), and an installed swap can be
+   re-applied with return_swap=False on any DAG: the call returns, every slot of every module stays, no content is
+   written.  NOT proved (model + run only): that the swap returned by the way there is installed after its first
+   application along every path, i.e. the whole there-and-back with return_swap=False for shared sub-modules. *)
+Theorem C13_installed_by_leaf : forall cfg m k x st n st' out,
+  simple cfg -> wf_heap (t_heap st) -> hg st m = Some n -> leaf_step cfg m k x st = (st', inl out) ->
+  exists n', hg st' m = Some n' /\ holds n' k x.
+Proof. exact leaf_step_installs. Qed.
+Print Assumptions C13_installed_by_leaf.
+Theorem C13_installed_swap_reapply_noop : forall cfg sw m st,
+  plainF cfg -> installed (t_heap st) sw m ->
+  exists st' memo' sw', to_module cfg sw m st = TmOk st' memo' sw' /\ all_sloteq st' st /\ t_vals st' = t_vals st.
+Proof. exact reapply_installed_noop. Qed.
+Print Assumptions C13_installed_swap_reapply_noop.
+Example C13_ex_installed : installed ex_heap ex_sw_orig 0 /\ plainF (mkCfg None false false).
+Proof. exact ex_installed. Qed.
+Example C13_ex_manual_swap_back :
+  let '(st', evs, oc) := run_blocks (mkExc XNone 0 false) [ex_bm] 0 ex_st in
+  Forall (fun e => ev_out e = OOk) evs /\ oc = OOk
+  /\ option_map (fun n => (slot3 n "w", slot3 n "r")) (hg st' 0%Z)
+     = Some ((Some (Some (oP 1)), None, None), (None, Some (Some (oT 2)), None))
+  /\ option_map (fun n => slot3 n "w") (hg st' 1%Z) = Some (Some (Some (oP 3)), None, None)
+  /\ match evs with e :: _ => option_map (fun n => slot3 n "w") (hg (ev_state e) 1%Z) = Some (Some (Some (oP 13)), None, None)
+     | [] => False end.
+Proof. exact ex_manual_run. Qed.
